@@ -73,7 +73,7 @@ Fixpoint repr (W : world) (v : value) {struct v} : pyexpr :=
   | VDuration d => ECall [lit "XmlDuration"] [raw_dq d] []
   | VPeriod d => ECall [lit "XmlPeriod"] [raw_dq d] []
   | VStd k args => ECall [lit "datetime"; std_name k] (map EInt (std_repr_args k args)) []
-  | VEnum c m => EName [last (snd c) []; m]          (* Enum.__str__ uses __name__ *)
+  | VEnum c m => EName (snd c ++ [m])                (* f"{__qualname__}.{name}" *)
   | VList l => EList (map (repr W) l)
   | VTuple l => match l with [] => ETuple [] | _ => EList (map (repr W) l) end
   | VSet fz l =>
@@ -224,7 +224,8 @@ Definition wf_local (W : world) (v : value) : bool :=
   | VDuration d => dq_safe d
   | VPeriod d => dq_safe d
   | VStd k args => Nat.eqb (length args) (match k with SDate => 3 | STime => 4 | SDateTime => 7 end)%nat
-  | VEnum c m => enum_has W c m && match lib_kind c with None => true | Some _ => false end && nospace (fst c)
+  | VEnum c m => enum_has W c m && match lib_kind c with None => true | Some _ => false end
+                 && match snd c with [] => false | _ => true end && nospace (fst c)
   | VDict kv => forallb scalar_key (map fst kv) && keys_distinct (map fst kv)
   | VObj c fs =>
       match find_data W c with
@@ -245,9 +246,7 @@ Definition wf (W : world) (v : value) : bool := forallb (wf_local W) (subs W v).
 (* G1 tuple/set/frozenset with elements is written as a list *)
 Definition g_array_local (v : value) : bool :=
   match v with VTuple (_ :: _) => false | VSet _ (_ :: _) => false | _ => true end.
-(* G2 a member of an inner Enum is written Inner.MEMBER, only Outer is imported *)
-Definition g_enum_local (v : value) : bool :=
-  match v with VEnum c _ => match snd c with [_] => true | _ => false end | _ => true end.
+(* (G2, members of inner Enums written Inner.MEMBER: repaired in /repo fc8f170, clause deleted) *)
 (* G4 QName text pasted unescaped.  (XmlDuration/XmlPeriod paste their data the same way,
    but both constructors strip and validate it, so such data is always [dq_safe]: an
    invariant in [wf_local], not a guard clause — was finding C18-F5 until XmlDuration
@@ -283,14 +282,13 @@ Definition g_names (ps : list import_line) : bool :=
   forallb (fun a => negb (is_builtin (snd a)) && forallb (pair_compatible a) ps) ps.
 
 Definition g_array (W : world) (v : value) : bool := forallb g_array_local (subs W v).
-Definition g_enum (W : world) (v : value) : bool := forallb g_enum_local (subs W v).
 Definition g_raw (W : world) (v : value) : bool := forallb g_raw_local (subs W v).
 Definition g_init (W : world) (v : value) : bool := forallb (g_init_local W) (subs W v).
 Definition g_imports (W : world) (v : value) : bool := g_names (map import_pair (types W v)).
 Definition g_std (W : world) (v : value) : bool := forallb g_std_local (subs W v).
 
 Definition guard (W : world) (v : value) : bool :=
-  g_array W v && g_enum W v && g_imports W v && g_raw W v && g_init W v && g_std W v.
+  g_array W v && g_imports W v && g_raw W v && g_init W v && g_std W v.
 
 (* ---------- model of "render, exec in a fresh namespace, compare" ---------- *)
 Definition exec_back (W : world) (v : value) : option value :=
